@@ -6,6 +6,7 @@ renders it to the string given to pydantic, and hands the same AST to this model
 `{model}` placeholders appear as the column prefix "{model}.".
 -/
 import SideVerif.Sql.Rel
+import SideVerif.Layer.Str
 namespace SideVerif
 open Sql Cal
 
@@ -64,6 +65,14 @@ def rsplitDunderAux : List Char → List Char → Option (List Char × List Char
 def rsplitDunder (s : String) : Option (String × String) :=
   (rsplitDunderAux [] s.toList).map fun (a, b) => (String.ofList a, String.ofList b)
 
+/-- Python `s.split("__")[0]`: the part before the first "__" -/
+def beforeFirstDunderAux : List Char → List Char → List Char
+  | pre, [] => pre
+  | pre, '_' :: '_' :: _ => pre
+  | pre, c :: rest => beforeFirstDunderAux (pre ++ [c]) rest
+
+def beforeFirstDunder (s : String) : String := String.ofList (beforeFirstDunderAux [] s.toList)
+
 /-- `_parse_dimension_refs` for one reference -/
 def parseDimRef (s : String) : String × Option String :=
   match rsplitDunder s with
@@ -72,27 +81,27 @@ def parseDimRef (s : String) : String × Option String :=
 
 /-- Python `a, b = s.split(".")` (exactly one dot) -/
 def split2 (s : String) : Option (String × String) :=
-  match s.splitOn "." with
+  match Str.splitChar '.' s with
   | [a, b] => some (a, b)
   | _ => none
 
 /-- Python `s.split(".", 1)` when "." in s -/
 def splitFirstDot (s : String) : Option (String × String) :=
-  match s.splitOn "." with
-  | a :: b :: rest => some (a, ".".intercalate (b :: rest))
+  match Str.splitChar '.' s with
+  | a :: b :: rest => some (a, Str.joinWith "." (b :: rest))
   | _ => none
 
 /-- `replace_model_placeholder` on a column name -/
 def replacePlaceholder (m : SModel) (c : String) : String :=
-  if c.startsWith "{model}." then
+  if Str.startsWith c "{model}." then
     (match m.source with
-     | .subquery _ _ => "t." ++ (c.drop 8).toString
-     | .table _ => (c.drop 8).toString)
+     | .subquery _ _ => "t." ++ Str.dropLen c 8
+     | .table _ => Str.dropLen c 8)
   else c
 
 /-- metric-level filter inside the CTE: `.replace("{model}.", "").replace("{model}", "")` -/
 def stripPlaceholder (c : String) : String :=
-  if c.startsWith "{model}." then (c.drop 8).toString else c
+  if Str.startsWith c "{model}." then Str.dropLen c 8 else c
 
 
 end SideVerif
